@@ -89,7 +89,32 @@ func genC06(g *Gen, tier string, w *bufio.Writer) {
 			return child
 		}
 		var s errShape
-		shapeNo := g.Intn(22)
+		shapeNo := g.Intn(24)
+		if shapeNo >= 22 {
+			// a join whose one input is EMPTY and ends at once while the other, much longer input fails at its end:
+			// the join must still report the failure of the input that is still running
+			big := 4000 + g.Intn(2000)
+			var sb strings.Builder
+			sb.WriteString("c0,m,c1\n")
+			for k := 0; k < big; k++ {
+				m := 0
+				if k == big-1 {
+					m = 1
+				}
+				fmt.Fprintf(&sb, "%d,%d,x\n", k%4, m)
+			}
+			files := []qfile{{"e.csv", sb.String()}, r}
+			side := "(SELECT c0 FROM e.csv t2 WHERE " + pred + ") t"
+			empty := "(SELECT k FROM r.csv r2 WHERE k > 100) r"
+			var s errShape
+			if shapeNo == 22 {
+				s = errShape{"SELECT t.c0 FROM " + side + " JOIN " + empty + " ON t.c0 = r.k", "un map 0 bin streamJoin 0 un map 0 un filter 1 src csvSource 0 un map 0 un filter 0 src csvSource 0", files}
+			} else {
+				s = errShape{"SELECT t.c0 FROM " + empty + " JOIN " + side + " ON t.c0 = r.k", "un map 0 bin streamJoin 0 un map 0 un filter 0 src csvSource 0 un map 0 un filter 1 src csvSource 0", files}
+			}
+			fmt.Fprintln(w, errqLine(mode, s))
+			continue
+		}
 		if shapeNo >= 14 {
 			// a failing expression ABOVE a node: the error is handed DOWN to the node's produce call and must come
 			// back up through it. `boom` fails on every row it sees, so the query fails iff the inner query has a row.
